@@ -15,7 +15,8 @@ THEOREMS = {
     "C04": [S + n for n in ["val_stepTxn_hold", "hold_updated", "hold_unchanged", "hold_initial", "val_stepTxn_csink", "accum_fires", "val_stepTxn_accum",
                             "accum_is_foldl", "accum_is_foldl_fresh", "collect_fires", "val_stepTxn_collect", "collect_state_is_foldl", "collect_output", "cell_next_value",
                             "accum_eq_loop_hold_snapshot", "accum_eq_loop_hold_snapshot_fresh"]],
-    "C05": [S + n for n in ["switchs_fires", "switchs_ignores_selector_update", "switchc_fires_on_switch", "switchc_value", "lift_inv_switchc"]],
+    "C05": [S + n for n in ["switchs_fires", "switchs_ignores_selector_update", "switchc_fires_on_switch", "switchc_value", "lift_inv_switchc",
+                            "when_fires", "when_silent", "when_passes", "when_fires_iff"]],
     "C06": [G + "collect_sound_total", G + "client_never_loses_a_held_object", G + "GcInv.bounded", G + "collect_sound",
             "SodiumVerif.GcScript.script_sound", G + "collectCycles_terminates", G + "collect_frees_only_garbage",
             "SodiumVerif.Struct.run_reachable", "SodiumVerif.Struct.struct_sound", "SodiumVerif.Struct.struct_held_not_freed", "SodiumVerif.Struct.struct_counts_exact"],
@@ -48,7 +49,7 @@ MODULES = {
     "C01": ["SodiumVerif.Props.C01", "SodiumVerif.Props.C14", "SodiumVerif.Props.C10"],
     "C02": ["SodiumVerif.Props.C02", "SodiumVerif.Props.C03", "SodiumVerif.Props.Refine", "SodiumVerif.Props.RefineHist"],
     "C04": ["SodiumVerif.Props.C04", "SodiumVerif.Props.C13", "SodiumVerif.Props.Expand"],
-    "C05": ["SodiumVerif.Props.C05"],
+    "C05": ["SodiumVerif.Props.C05", "SodiumVerif.Props.C05b"],
     "C06": ["SodiumVerif.Props.C06", "SodiumVerif.Props.StructMem"],
     "C07": ["SodiumVerif.Props.C07", "SodiumVerif.Props.C06", "SodiumVerif.Props.StructMem"],
     "C09": ["SodiumVerif.Props.C09", "SodiumVerif.Props.C09b", "SodiumVerif.Props.C06"],
